@@ -29,7 +29,7 @@ REQUIRED_CLAUSES = ["I1.joints", "I2.lengths", "I3.relative", "I4.valid_means_va
 def plan(tier, seed):
     if tier == "quick":
         return [{"n": 20, "timeout_s": 1800} for _ in range(16)]
-    return [{"n": 375, "timeout_s": 14400} for _ in range(16)]
+    return [{"n": 375, "timeout_s": 14400} for _ in range(16)] + [{"mode": "suite", "n": 0, "timeout_s": 3600}]
 
 
 def gen_history(rng, model, g):
@@ -249,6 +249,12 @@ def run_history(case, ctx, bm):
 
 
 def run_shard(spec, ctx):
+    if spec.get("mode") == "suite":
+        from ..worker import import_target
+        from ..suite import run_under_monitors
+        import_target()
+        run_under_monitors(ctx, "C10", timeout_s=spec["timeout_s"] - 120)
+        return
     bm = splib.load_bm()
     rng = ctx.rng
     for _ in range(int(spec["n"])):
@@ -270,6 +276,10 @@ def run_shard(spec, ctx):
 
 
 def replay(case, ctx):
+    if "suite_test" in case:
+        from ..suite import run_under_monitors
+        run_under_monitors(ctx, "C10", select=[case["suite_test"]])
+        return
     bm = splib.load_bm()
     ctx.case("replay", True)
     run_history(case, ctx, bm)
